@@ -187,6 +187,13 @@ impl<'a, 'tcx> Cx<'a, 'tcx> {
                 return format!("{{\"int\":\"{}\",\"ty\":{}}}", v, self.ty_s(ty));
             }
         }
+        if let ty::Ref(_, inner, _) = ty.kind() {
+            if inner.is_integral() || inner.is_bool() || inner.is_char() {
+                if let Some(v) = self.const_ref_int(c, *inner) {
+                    return format!("{{\"refint\":\"{}\",\"ty\":{}}}", v, self.ty_s(ty));
+                }
+            }
+        }
         if let Some(b) = self.const_bytes(c) {
             return format!("{{\"bytes\":\"{}\",\"ty\":{}}}", hex(&b), self.ty_s(ty));
         }
@@ -194,6 +201,33 @@ impl<'a, 'tcx> Cx<'a, 'tcx> {
             return format!("{{\"struct\":{},\"ty\":{}}}", st, self.ty_s(ty));
         }
         format!("{{\"s\":{},\"ty\":{}}}", esc(&format!("{}", c)), self.ty_s(ty))
+    }
+
+    /// `&<integer>` constants (promoted literals such as the `0` in `format!("{:>010}", 0)`).
+    fn const_ref_int(&self, c: &Const<'tcx>, inner: Ty<'tcx>) -> Option<i128> {
+        let tcx = self.tcx;
+        let val = c.eval(tcx, self.tenv, rustc_span::DUMMY_SP).ok()?;
+        let layout = tcx.layout_of(TypingEnv::fully_monomorphized().as_query_input(inner)).ok()?;
+        let n = layout.size.bytes_usize();
+        if let ConstValue::Scalar(mir::interpret::Scalar::Ptr(ptr, _)) = val {
+            let (prov, off) = ptr.into_raw_parts();
+            let alloc = tcx.global_alloc(prov.alloc_id()).unwrap_memory();
+            let a = alloc.inner();
+            let o = off.bytes_usize();
+            if n > 16 || o + n > a.len() {
+                return None;
+            }
+            let bytes = a.inspect_with_uninit_and_ptr_outside_interpreter(o..o + n);
+            let mut buf = [0u8; 16];
+            buf[..n].copy_from_slice(bytes);
+            let mut v = u128::from_le_bytes(buf) as i128;
+            if inner.is_signed() && n < 16 {
+                let shift = 128 - 8 * n as u32;
+                v = (v << shift) >> shift;
+            }
+            return Some(v);
+        }
+        None
     }
 
     /// `&Struct` / `Struct` constants whose fields are plain integers (e.g. a promoted `RangeInclusive<u8>`):
